@@ -1,4 +1,7 @@
 CONSTANT InPlaceMutation = TRUE
+CONSTANT DeadlineOnProcessClock = FALSE
+CONSTANT AgeLimit = 2
+CONSTANT MaxAge = 3
 CONSTANT ModelReused = FALSE
 SPECIFICATION TraceSpec
 INVARIANT Check
